@@ -71,10 +71,11 @@ pub fn data_a() -> Value {
         m.insert(format!("t{}", i), tv);
         m.insert(format!("f{}", i), falsy(i + 2));
     }
-    m.insert("ts".into(), json!(["x", "TS1", {"last": true}]));
+    // truthy values incl. the tiniest non-zero numbers
+    m.insert("ts".into(), json!(["x", 5e-324, -1e-300]));
     m.insert("fs".into(), json!([0, "", []]));
     m.insert("name".into(), json!("Bé"));
-    m.insert("o".into(), json!({"k.x": "KX", "deep": {"er": [0]}, "zero": 0}));
+    m.insert("o".into(), json!({"k.x": 1e-20, "deep": {"er": [0]}, "zero": 0}));
     Value::Object(m)
 }
 
